@@ -17,7 +17,7 @@ for pid in sorted(CLAIMED):
         "evidence_file": f"evidence/{pid}.json",
         "replay_cmd_template": "bin/govc replay {path}",
         "engine": "govc",
-        "level_claimed": {"category": "proof", "text": p["level_text"], "design_ref": p.get("design_ref", "DESIGN.md section 8 (" + pid + ")")},
+        "level_claimed": {"category": "proof", "text": p["level_text"], "design_ref": p.get("design_ref", "DESIGN.md section 12.6 (" + pid + ", as built) and section 8 (plan)")},
         "level_note": p["level_note"],
         "technique": p.get("technique", "contract-based deductive verification: weakest-precondition VCs over go/ssa of the real code, discharged by z3/cvc5"),
     })
